@@ -71,7 +71,7 @@ impl Prop for C02 {
         "case = one generated document model (all item kinds, member forms, types to depth 4, all value / annotation forms, trailing commas, near-keyword identifiers) rendered under 2-4 independent random layouts (spaces, tabs, LF/CRLF/CR, Unicode whitespace, line / block / doc comments with arbitrary incl. multi-byte text, no separator where the reference lexer allows). Oracle: tree returned by validate() == tree built from the model (ranges, docs, kinds masked; method oneway = source || interface oneway), parse-stage tree likewise, no syntax diagnostic, and equal trees across layouts. Non-trivial = >= 1 member and a layout with non-space trivia or a no-separator gap; distinct by rendered text.".into()
     }
     fn random_cases(&self, tier: Tier) -> u64 {
-        tier.pick(8_000, 350_000)
+        tier.pick(20_000, 350_000)
     }
     fn max_bytes(&self) -> usize {
         2500
